@@ -37,6 +37,7 @@ type Result struct {
 	Found       []Found  `json:"found,omitempty"`
 	Stats       *Stats   `json:"stats"`
 	Sample      []string `json:"sample,omitempty"`
+	Sample2     []string `json:"sample_with_deviations,omitempty"`
 	Validated   int      `json:"validated"`
 	WallS       float64  `json:"wall_s"`
 	Error       string   `json:"error,omitempty"`
@@ -304,6 +305,12 @@ func (x *Explorer) dfs(path []Event, w *World, budget int) {
 				x.res.Done++
 			} else {
 				x.res.Stuck++
+			}
+			if x.res.Sample2 == nil && x.sc.Mode == "kbound" && budget < x.sc.K {
+				// one explored execution with deviations, written out
+				for _, e := range path {
+					x.res.Sample2 = append(x.res.Sample2, fmt.Sprintf("%s n%d %x %d %d cost=%d", e.K, e.N, uint64(e.P)&0xffff, e.A, e.B, e.Cost))
+				}
 			}
 			if x.onTerminal != nil {
 				x.onTerminal(w, path)
